@@ -254,6 +254,37 @@ Proof.
   unfold lines_paired in H. rewrite Forall_forall in H. apply (H _ E).
 Qed.
 
+(* ------------------------------------------------------------------ *)
+(* without sortedness: the row found is never to the right of `column`  *)
+(* ------------------------------------------------------------------ *)
+Lemma bs_loop_le rows column : forall fuel lo hi,
+  bs_loop fuel rows column lo hi = lo \/
+  (lo < bs_loop fuel rows column lo hi /\
+   exists rw, nth_opt rows (bs_loop fuel rows column lo hi - 1) = Some rw /\ (row_col rw <= column)%Z).
+Proof.
+  induction fuel as [|f IH]; intros lo hi; cbn [bs_loop]; [left; reflexivity|].
+  destruct (lo <? hi) eqn:E; [|left; reflexivity]. apply N.ltb_lt in E.
+  destruct (half_between lo hi E) as [M1 M2]. set (m := (lo + hi) / 2) in *.
+  destruct (nth_opt rows m) as [rw|] eqn:Hrw; [|left; reflexivity].
+  destruct (row_col rw <=? column)%Z eqn:C.
+  - apply Z.leb_le in C. right. destruct (IH (m + 1) hi) as [H|[H1 H2]].
+    + rewrite H. split; [lia|]. exists rw. replace (m + 1 - 1) with m by lia. split; assumption.
+    + split; [lia|exact H2].
+  - destruct (IH lo m) as [H|[H1 H2]]; [left; exact H|right; split; assumption].
+Qed.
+
+Theorem find_inner_le st line column rw ch :
+  find_inner st line column = Some (rw, ch) -> (1 <= line)%Z /\ (row_col rw <= column)%Z.
+Proof.
+  unfold find_inner. destruct (line <? 1)%Z eqn:E; [discriminate|]. apply Z.ltb_ge in E.
+  destruct (nth_opt (b_lines st) (Z.to_N line - 1)) as [[rows chunks]|]; [|discriminate].
+  destruct (bs_loop_le rows column (S (length rows)) 0 (len rows)) as [H|[H1 [r [H2 H3]]]].
+  - rewrite H. cbn. discriminate.
+  - set (l := bs_loop (S (length rows)) rows column 0 (len rows)) in *.
+    destruct (l =? 0); [discriminate|]. rewrite H2. destruct (nth_opt chunks (l - 1)); [|discriminate].
+    intros Q. inversion Q. subst. split; [lia|exact H3].
+Qed.
+
 Print Assumptions bs_loop_inv.
 Print Assumptions bs_loop_partition.
 Print Assumptions bs_loop_count.
@@ -262,3 +293,4 @@ Print Assumptions find_inner_none.
 Print Assumptions find_inner_line0.
 Print Assumptions find_inner_beyond.
 Print Assumptions inner_events_paired.
+Print Assumptions find_inner_le.
